@@ -44,7 +44,8 @@ inline std::string mutateSource(sim::Rng &r, const std::string &src, bool isX, i
   };
   static const char *xkw[] = {"val", "var", "array", "proc", "func", "is", "if", "then", "else", "while", "do", "skip", "stop", "return", "and", "or", "true", "false"};
   static const char *akw[] = {"LDAM", "LDBM", "STAM", "LDAC", "LDBC", "LDAP", "LDAI", "LDBI", "STAI", "BR", "BRZ", "BRN", "OPR", "ADD", "SUB", "SVC", "BRB", "DATA", "PROC", "FUNC"};
-  static const char *nums[] = {"0", "1", "2", "3", "15", "16", "255", "256", "65535", "65536", "2147483647", "2147483648", "4294967295", "4294967296", "99999999999", "#FFFFFFFF", "#0"};
+  static const char *nums[] = {"0", "1", "2", "3", "15", "16", "255", "256", "65535", "65536", "2147483647", "2147483648", "4294967295", "4294967296", "99999999999", "#FFFFFFFF", "#0",
+                               "18446744073709551615", "18446744073709551616", "99999999999999999999999", "#FFFFFFFFFFFFFFFFF"};
   int edits = 1 + (int)r.below((uint64_t)maxEdits);
   for (int e = 0; e < edits; e++) {
     reindex();
